@@ -108,7 +108,7 @@ def run_check(prop, tier="quick", replay=None):
     evidence_path = os.path.join(EVIDENCE_DIR, prop + ".json")
     mod = importlib.import_module("rbv.rules." + prop.lower())
     try:
-        crates = facts.load_workspace()
+        crates = facts.load_workspace(fresh=(tier == "thorough" and not os.environ.get("RBV_THOROUGH_USE_CACHE")))
         prog = mir.Program(crates)
         fixtures = None
         if getattr(mod, "NEEDS_FIXTURES", False):
